@@ -246,8 +246,16 @@ impl ZmodN {
             m[i + sz] = mi;
             if c {
                 assert!(i + sz + 1 < m.len());
-                // FIXME: overflow
-                m[i + sz + 1] += u64::from(c);
+                // Propagate the carry: the next word may itself overflow.
+                let mut j = i + sz + 1;
+                loop {
+                    let (mj, cj) = m[j].overflowing_add(1);
+                    m[j] = mj;
+                    if !cj {
+                        break;
+                    }
+                    j += 1;
+                }
             }
         }
         let mut m: [u64; MINT_WORDS] = m[sz..sz + MINT_WORDS].try_into().unwrap();
